@@ -31,7 +31,7 @@ CHECKS = {
 }
 PENDING_REASON = "check not built yet in this session (planned, see DESIGN.md section 3); not claimed until it exists"
 def main():
-    hooks = subprocess.run(["git","-C","/repo","log","--format=%H","--","pkg/controller/verif_hooks.go","pkg/cloudprovider/aws/verif_hooks.go"],capture_output=True,text=True).stdout.split()
+    hooks = subprocess.run(["git","-C","/repo","log","--format=%H","--","pkg/controller/verif_hooks.go","pkg/cloudprovider/aws/verif_hooks.go","cmd/verif_gate_test.go"],capture_output=True,text=True).stdout.split()
     m = {
       "version": 1,
       "setup_cmd": "./setup.sh",
